@@ -1,14 +1,16 @@
 (* C13 — Offset and range queries find the right element.  Property theorems only. *)
-From CsModel Require Import Red RedProofs OffsetSpec.
+From CsModel Require Import Red RedProofs OffsetSpec TaoHelper.
 
 (* token_at_offset inside start <= off <= end: never a panic (the unwrap, the assert and the
    unreachable! are unreachable), nothing for empty text, otherwise the single non-empty token
-   touching the offset or the two non-empty tokens that meet at it *)
+   touching the offset or the two non-empty tokens that meet at it (TaoGood) — and it is complete:
+   EVERY non-empty token below p whose range touches the offset is in the answer (Complete), so
+   `Single` is returned only when there is exactly one such token *)
 Theorem C13_tao_spec : forall g rs p off e,
   LenOk g -> Inv g rs -> Known rs p -> subr g p = Some e -> is_node e = true ->
   true_off g p <= off <= true_off g p + glen e ->
   (glen e = 0 /\ fst (token_at_offset g rs p off) = Ok TNone) \/
-  (0 < glen e /\ exists x, fst (token_at_offset g rs p off) = Ok x /\ TaoGood g p off x).
+  (0 < glen e /\ exists x, fst (token_at_offset g rs p off) = Ok x /\ TaoGood g p off x /\ Complete g p off x).
 Proof. intros. eapply tao_spec; eauto. Qed.
 Print Assumptions C13_tao_spec.
 
@@ -44,3 +46,22 @@ Proof.
   - apply (covering_element_ok g rs p a b I K).
 Qed.
 Print Assumptions C13_queries_keep_inv.
+
+(* the TokenAtOffset helper: left / right bias and the iterator with its exact size hint, against the plain
+   list of the tokens found (tao_list: [] / [t] / [l; r]) *)
+Theorem C13_tao_left_right : forall x, tao_left x = hd_error (tao_list x) /\ tao_right x = last_error (tao_list x).
+Proof. intros x. split; [apply tao_left_spec|apply tao_right_spec]. Qed.
+Print Assumptions C13_tao_left_right.
+
+Theorem C13_tao_iterator : forall x n,
+  fst (tao_drain (3 + n)%nat x) = tao_list x /\
+  snd (tao_drain (3 + n)%nat x) = map (fun k => length (skipn k (tao_list x))) (seq 0%nat (3 + n)%nat).
+Proof. exact tao_drain_spec. Qed.
+Print Assumptions C13_tao_iterator.
+
+Theorem C13_tao_bias_meaning : forall g q off l r,
+  TaoGood g q off (TBetween l r) ->
+  tao_left (TBetween l r) = Some l /\ (true_off g l + len_at g l = off)%N /\
+  tao_right (TBetween l r) = Some r /\ true_off g r = off.
+Proof. exact tao_bias_meaning. Qed.
+Print Assumptions C13_tao_bias_meaning.
